@@ -12,7 +12,7 @@
 (*                  inverse, eliminate below; then eliminate above),       *)
 (*                  applied to both operands.                              *)
 (***************************************************************************)
-EXTENDS Integers, Sequences, FiniteSets
+EXTENDS Integers, Sequences, FiniteSets, TLC
 
 CONSTANTS MulOp(_, _), InvOp(_), AddOp(_, _)
 
@@ -24,9 +24,11 @@ SumR(f, k, acc) == IF k = 0 THEN acc ELSE SumR(f, k - 1, AddOp(acc, f[k]))
 \* xor-sum of a sequence of field elements
 Sum(f) == SumR(f, Len(f), 0)
 
+\* (TLCEval: TLC's function constructors are lazy and not memoised; without forcing them the
+\*  chains of row operations below are re-evaluated on every access)
 Times(A, B) ==
-  [i \in 1 .. Rows(A) |-> [j \in 1 .. Cols(B) |->
-      Sum([k \in 1 .. Cols(A) |-> MulOp(A[i][k], B[k][j])])]]
+  TLCEval([i \in 1 .. Rows(A) |-> [j \in 1 .. Cols(B) |->
+      Sum([k \in 1 .. Cols(A) |-> MulOp(A[i][k], B[k][j])])]])
 
 Identity(n) == [i \in 1 .. n |-> [j \in 1 .. n |-> IF i = j THEN 1 ELSE 0]]
 Zero(r, c) == [i \in 1 .. r |-> [j \in 1 .. c |-> 0]]
@@ -34,7 +36,7 @@ Zero(r, c) == [i \in 1 .. r |-> [j \in 1 .. c |-> 0]]
 IsInverse(X, M) == Times(X, M) = Identity(Rows(M))
 
 \* M * v for a column vector given as a sequence
-Apply(M, v) == [i \in 1 .. Rows(M) |-> Sum([k \in 1 .. Len(v) |-> MulOp(M[i][k], v[k])])]
+Apply(M, v) == TLCEval([i \in 1 .. Rows(M) |-> Sum([k \in 1 .. Len(v) |-> MulOp(M[i][k], v[k])])])
 IsKernelVector(M, v) ==
   /\ Len(v) = Cols(M)
   /\ \E k \in 1 .. Len(v) : v[k] # 0
@@ -55,9 +57,9 @@ Det(M) ==
                    p    == M[r][1]
                    pinv == InvOp(p)
                    rest == [i \in 1 .. (n - 1) |-> IF i < r THEN M[i] ELSE M[i + 1]]
-                   red  == [i \in 1 .. (n - 1) |->
+                   red  == TLCEval([i \in 1 .. (n - 1) |->
                               LET f == MulOp(rest[i][1], pinv)
-                              IN [j \in 1 .. (n - 1) |-> AddOp(rest[i][j + 1], MulOp(f, M[r][j + 1]))]]
+                              IN [j \in 1 .. (n - 1) |-> AddOp(rest[i][j + 1], MulOp(f, M[r][j + 1]))]])
                IN MulOp(p, Det(red))
 
 Singular(M) == Det(M) = 0
@@ -65,11 +67,11 @@ Singular(M) == Det(M) = 0
 (***************************************************************************)
 (* ALGORITHM LAYER: rowReduceForInverse(m, n).  State <<m, n>>.            *)
 (***************************************************************************)
-SwapRows(M, i, j) == [r \in 1 .. Len(M) |-> IF r = i THEN M[j] ELSE IF r = j THEN M[i] ELSE M[r]]
-ScaleRow(M, i, c) == [r \in 1 .. Len(M) |-> IF r = i THEN [k \in 1 .. Len(M[r]) |-> MulOp(c, M[r][k])] ELSE M[r]]
+SwapRows(M, i, j) == TLCEval([r \in 1 .. Len(M) |-> IF r = i THEN M[j] ELSE IF r = j THEN M[i] ELSE M[r]])
+ScaleRow(M, i, c) == TLCEval([r \in 1 .. Len(M) |-> IF r = i THEN [k \in 1 .. Len(M[r]) |-> MulOp(c, M[r][k])] ELSE M[r]])
 \* row dest += c * row src
 AddScaledRow(M, dest, src, c) ==
-  [r \in 1 .. Len(M) |-> IF r = dest THEN [k \in 1 .. Len(M[r]) |-> AddOp(M[r][k], MulOp(c, M[src][k]))] ELSE M[r]]
+  TLCEval([r \in 1 .. Len(M) |-> IF r = dest THEN [k \in 1 .. Len(M[r]) |-> AddOp(M[r][k], MulOp(c, M[src][k]))] ELSE M[r]])
 
 \* eliminate column i from the rows in the sequence js (in order), using row i
 RECURSIVE Elim(_, _, _, _)
